@@ -79,5 +79,35 @@ pub fn file_dict_name(url: &Url) -> anyhow::Result<PathBuf> {
         }
     }
 
+    // A deeply nested document gives a name longer than file systems accept, and its dictionary
+    // could never be saved. Keep the end of the path and stand in for the front of it with a
+    // digest of the whole, so that different documents still get different names.
+    if rewritten.len() > MAX_FILE_NAME_LEN {
+        let digest = fnv1a_64(rewritten.as_bytes());
+
+        let mut cut = rewritten.len() - (MAX_FILE_NAME_LEN - 17);
+        while !rewritten.is_char_boundary(cut) {
+            cut += 1;
+        }
+
+        rewritten = format!("{digest:016x}%{}", &rewritten[cut..]);
+    }
+
     Ok(rewritten.into())
+}
+
+/// The longest file name (in bytes) common file systems accept.
+const MAX_FILE_NAME_LEN: usize = 255;
+
+/// 64-bit FNV-1a. File names must not change between releases, which rules out the standard
+/// library's hashers.
+fn fnv1a_64(bytes: &[u8]) -> u64 {
+    let mut hash: u64 = 0xcbf2_9ce4_8422_2325;
+
+    for byte in bytes {
+        hash ^= u64::from(*byte);
+        hash = hash.wrapping_mul(0x0000_0100_0000_01b3);
+    }
+
+    hash
 }
